@@ -1,6 +1,6 @@
 (** Property C04 — precompiles act only for the signer or the caller, within grants.
     This file only states the property theorems and closes each with a lemma of
-    Authz/IdentityProofs.v, Authz/AllowanceProofs.v, Authz/CallProofs.v;
+    Authz/IdentityProofs.v, Authz/AllowanceProofs.v, Authz/TransferHistoryProofs.v, Authz/CallProofs.v;
     [Print Assumptions] follows every theorem.
 
     [o]: transaction signer (evm.Origin); [c]: immediate caller of the precompile;
@@ -12,7 +12,7 @@
 From Coq Require Import ZArith List.
 From stdpp Require Import gmap.
 From HV Require Import Authz.IdentityModel Authz.IdentityProofs Authz.AllowanceModel Authz.AllowanceProofs
-     Authz.CallModel Authz.CallProofs.
+     Authz.TransferHistoryProofs Authz.CallModel Authz.CallProofs.
 Import ListNotations.
 Local Open Scope Z_scope.
 
@@ -316,6 +316,67 @@ Theorem C04_step_impl_eq_spec_outside_k10 :
     step cf true W o c cl = step cf false W o c cl.
 Proof. exact step_impl_eq_spec_outside_k10. Qed.
 Print Assumptions C04_step_impl_eq_spec_outside_k10.
+
+(** ** 4b. ICS-20: one approve with several allocations; the running allowance per (channel, denomination) *)
+
+(** A successful ICS-20 approve stores exactly the allocations it was given: every
+    channel of the call exists, the stored grant holds for every channel and
+    denomination the amount the call named for THAT channel and denomination
+    (nothing of one allocation leaks into another), expiring one year later. *)
+Theorem C04_ics_approve_stores_what_was_approved :
+  forall now ce G k allocs G1, ics_approve now ce G k allocs = (G1, SOk) ->
+    G1 = <[k := mkgrant (ATransfer (strip_allow allocs)) (Some (now + YEAR))]> G /\
+    wf_allocs (strip_allow allocs) /\
+    Forall (fun a => ce (a_chan a) = true) allocs /\
+    forall ch d, trem G1 k ch d = remaining_transfer allocs ch d.
+Proof. exact ics_approve_stores_exactly. Qed.
+Print Assumptions C04_ics_approve_stores_what_was_approved.
+
+Theorem C04_ics_approve_failed_writes_nothing :
+  forall now ce G k allocs G1 st, ics_approve now ce G k allocs = (G1, st) -> st <> SOk -> G1 = G.
+Proof. exact ics_approve_failed_keeps. Qed.
+Print Assumptions C04_ics_approve_failed_writes_nothing.
+
+(** An accepted transfer draws on the allocation of ITS channel and on the limit of
+    ITS denomination only: that limit goes down by exactly the amount, every other
+    (channel, denomination) of the grant is what it was. *)
+Theorem C04_transfer_accept_touches_one_limit :
+  forall allocs ch d amt recv r,
+    wf_allocs allocs -> 0 < amt -> transfer_accept allocs ch d amt recv = Some r ->
+    let L := remaining_transfer allocs ch d in
+    (L = MAXU /\ r = TKeep) \/
+    (L <> MAXU /\ amt <= L /\
+     exists al', (r = TUpdate al' \/ (r = TDelete /\ al' = [])) /\ wf_allocs al' /\
+       remaining_transfer al' ch d = L - amt /\
+       forall ch' d', (ch' <> ch \/ d' <> d) -> remaining_transfer al' ch' d' = remaining_transfer allocs ch' d').
+Proof. exact transfer_accept_rem. Qed.
+Print Assumptions C04_transfer_accept_touches_one_limit.
+
+(** Corrected order, every sequence of approve (any number of allocations) /
+    increaseAllowance / decreaseAllowance of one (channel, denomination) / revoke /
+    native grant / transfer over any channel in any denomination / passage of time
+    over one grant, for EVERY channel and denomination: what the grantee's
+    transfers have spent since the allowance was last (re)defined never exceeds
+    what the signer granted there, a limited allowance holds exactly
+    granted - spent, an unbounded one is stored as the sentinel. *)
+Theorem C04_transfer_spent_le_allowance :
+  forall ce k ops, Forall wf_top ops ->
+    let s := trun false ce k ops tinit in
+    forall ch d,
+      (forall g, t_granted s ch d = Some g -> t_spent s ch d <= g /\ trem (t_G s) k ch d = g - t_spent s ch d) /\
+      (t_granted s ch d = None -> trem (t_G s) k ch d = MAXU).
+Proof. exact transfer_spent_le_allowance_spec. Qed.
+Print Assumptions C04_transfer_spent_le_allowance.
+
+(** The code's order: the same outside the one K10 shape the ICS-20 flow has (a
+    transfer the grant accepts but whose update cannot be saved: the grant expires
+    in this very block, see C04_k10_transfer_grant_expiring_now_refuted). *)
+Theorem C04_transfer_spent_le_allowance_impl_outside_k10 :
+  forall ce k ops, Forall wf_top ops -> tk10_free ce k ops tinit = true ->
+    let s := trun true ce k ops tinit in
+    forall ch d g, t_granted s ch d = Some g -> t_spent s ch d <= g /\ trem (t_G s) k ch d = g - t_spent s ch d.
+Proof. exact transfer_spent_le_allowance_impl_outside_k10. Qed.
+Print Assumptions C04_transfer_spent_le_allowance_impl_outside_k10.
 
 (** ** 5. finding K10 as theorems *)
 
